@@ -1,18 +1,31 @@
 import FimVerif.Proofs.Lemmas.TopoAtomic
+import FimVerif.Proofs.Lemmas.TopoInvComp
 /-!
 # C07 — models built through the topology API satisfy the published rules; views are exact
 
-Proved here, for all states / all histories of the modelled building calls:
-* `vocab_covers_enums` — every member of NodeType, ComponentType, InterfaceType, ServiceType, LinkType is in the
-  vocabulary the published rules allow for its class (tables regenerated from the source on every run);
-* `views_exact_*` — the views list exactly the elements of their class in the model (pure functions of the state);
-* `Topo.Wf` = "node ids are distinct" ∧ "every edge joins two nodes of the model": `inv_empty`, preserved (success or
-  failure) by each primitive through which the building calls mutate the graph (`wf_addGNode`, `pw_addEdge`,
-  `pw_deleteNode`, `pw_updateProps`, `pw_mapNodes`).  The lifting to whole building calls (`inv_op`, `inv_history`)
-  is NOT finished.
-The remaining conjuncts of the statement (argument vocabularies, one owner per component / interface, one peer per
-service port, names unique in scope) are evaluated by the oracle on generated histories only: the claim is partial
-for them, for every building call.
+Full statement: for every history `ops` of building calls, `Topo.Inv (run ops Topo.empty)`, where `Topo.Inv`
+(Proofs/Lemmas/TopoInv.lean) lists the conjuncts of the property one by one: ids distinct, no dangling edge, Class/Type in the
+published vocabularies, containment structure (links join only interfaces), every component exactly one node, every interface
+exactly one service / parent interface, every ServicePort exactly one peer, names unique in their six scopes.  The driver
+evaluates every conjunct on every state of the correspondence run and the harness compares the verdicts with the Python
+transliteration of the published rules on the implementation's graph.
+
+Proved here:
+* `vocab_covers_enums`, `rules_pinned` - the vocabularies of the published rules cover the API's enums (regenerated tables);
+* `views_exact_*` - the views list exactly the elements of their class;
+* `inv_empty : Inv Topo.empty`;
+* `inv_op` - each covered call (add_node, add_component, add_storage, add_interface, add_link, connect_interface, set/unset
+  property, rename) keeps `InvS` (= `Inv` without the name scopes), whether it returns or raises, under the
+  decidable guard `CoveredS s op` (argument types from the API's enums, handles refer to elements of their class, uuids are
+  fresh, no ServicePort handed to add_link/connect, add_interface not used to make a ServicePort);
+  `inv_history_partial : ValidS ops s -> InvS s -> InvS (run ops s)` by induction over the history;
+* `invD_op`, `invD_history_partial` - the same for the downward-closed invariant `InvD` ("at most one" owner/parent/peer)
+  over the larger alphabet that also has every removing call, disconnect and remove_interface (any state, any outcome);
+* `inv_setProps`, `inv_unsetProp`, `inv_addNode` - the full `Inv`, name scopes included, for these calls;
+* `_counterexample` theorems for the conjuncts the unchanged code breaks (known findings): rename to an existing name,
+  add_interface twice with one name, add_interface(ServicePort), add_link on a ServicePort.
+NOT covered (oracle only): add_network_service (both forms), add_facility, add_switch for `InvS`/`InvD` (add_component and
+add_storage are covered for `InvS`, at every point where the non-atomic call can stop); "exactly one" after removals (C08's subject); the name scopes for every call but the three above.
 -/
 namespace FimVerif.C07
 open FimVerif FimVerif.M FimVerif.Topo FimVerif.Gen
@@ -64,7 +77,7 @@ theorem views_partition_nodes (s : Topo) :
 def Wf (s : Topo) : Prop :=
   (s.nodes.map (·.nid)).Nodup ∧ ∀ e ∈ s.edges, (∃ n ∈ s.nodes, n.ref = e.a) ∧ (∃ n ∈ s.nodes, n.ref = e.b)
 
-theorem inv_empty : Wf Topo.empty := by simp [Wf, Topo.empty]
+theorem wf_empty : Wf Topo.empty := by simp [Wf, Topo.empty]
 
 /-- the id guard of `add_node` looks at every class (regenerated from a behaviour probe of the code) -/
 theorem id_guard_any_class : Rules.idAnyClass = true := by decide
@@ -181,10 +194,245 @@ theorem pw_mapNodes (f : GNode → GNode) (hf : ∀ n, (f n).nid = n.nid ∧ (f 
     Preserves Wf (M.modify (fun s : Topo => { s with nodes := s.nodes.map f })) :=
   preserves_modify (fun s h => wf_mapNodes f hf s h)
 
-/- NOT FINISHED (claim partial for every building call): `inv_op` - each building call of Model/Topo.lean preserves
-   `Wf` - and `inv_history`.  Every call mutates the graph only through `addGNode`, `addEdge`, `deleteNode`,
-   `updateProps` and the two `modify (… nodes.map f)` of `unsetProp`/`rename`, each of which is proved above to
-   preserve `Wf`, success or failure; the structural lifting through the do-blocks (`Preserves.bind`,
-   `Preserves.tryCatch`, induction for `svcLoop`) was not completed in the time available. -/
+/-! ## the invariant of the statement -/
+
+theorem inv_empty : Inv Topo.empty := by
+  refine ⟨⟨?_, ?_, ?_, ?_, ?_, ?_, ?_⟩, ⟨?_, ?_, ?_, ?_, ?_, ?_⟩⟩ <;>
+    simp [IdsOk, ClosedOk, VocabOk, SchemaOk, CompOwned, IfaceOwned, SpPeer, NodeNames, LinkNames, CompNames, SvcNames,
+      TopSvcNames, CpNames, Topo.empty, namesOf]
+
+/-- `Inv` is exactly "`InvD` and at least one owner / parent / peer" plus the name scopes -/
+theorem invS_iff (s : Topo) : InvS s ↔ InvD s ∧
+    (∀ n ∈ s.nodes, n.cls = .component → 1 ≤ (ownersOf s n.ref).length) ∧
+    (∀ n ∈ s.nodes, n.cls = .connectionPoint → 1 ≤ (parentsOf s n.ref).length) ∧
+    (∀ n ∈ s.nodes, n.cls = .connectionPoint → n.typ = "ServicePort" → 1 ≤ (spPeers s n.ref).length) := by
+  constructor
+  · intro h
+    exact ⟨h.down, fun n hn hc => Nat.le_of_eq (h.compOwned n hn hc).symm, fun n hn hc => Nat.le_of_eq (h.ifaceOwned n hn hc).symm,
+      fun n hn hc ht => Nat.le_of_eq (h.spPeer n hn hc ht).symm⟩
+  · intro ⟨h, h1, h2, h3⟩
+    exact ⟨h.ids, h.closed, h.vocab, h.schema, fun n hn hc => Nat.le_antisymm (h.compOwned n hn hc) (h1 n hn hc),
+      fun n hn hc => Nat.le_antisymm (h.ifaceOwned n hn hc) (h2 n hn hc),
+      fun n hn hc ht => Nat.le_antisymm (h.spPeer n hn hc ht) (h3 n hn hc ht)⟩
+
+/-- "links join only interfaces" as the published rule states it -/
+theorem links_only_interfaces {s : Topo} (h : SchemaOk s) (e : GEdge) (he : e ∈ s.edges) :
+    (e.a.cls = .link → e.b.cls = .connectionPoint) ∧ (e.b.cls = .link → False) := by
+  have := h e he
+  unfold edgeOk at this
+  constructor
+  · intro ha; rw [ha] at this; cases hr : e.rel <;> cases hb : e.b.cls <;> simp [hr, hb] at this ⊢
+  · intro hb; rw [hb] at this; cases hr : e.rel <;> cases ha : e.a.cls <;> simp [hr, ha] at this
+
+/-! ## histories -/
+
+def run : List TopoOp → Topo → Topo
+  | [], s => s
+  | op :: ops, s => run ops (step op s).2
+
+def NoSpOpt (s : Topo) : Option (List IfArg) → Prop
+  | none => True
+  | some l => NoSpIn s l
+instance (s : Topo) (o : Option (List IfArg)) : Decidable (NoSpOpt s o) := by cases o <;> unfold NoSpOpt <;> infer_instance
+
+/-- uuid4 returns ids that are not in the model -/
+def FreshTwo (s : Topo) (c : Nat) : Prop := ∀ m ∈ s.nodes, m.nid ≠ .gen c ∧ m.nid ≠ .gen (c + 1)
+instance (s : Topo) (c : Nat) : Decidable (FreshTwo s c) := by unfold FreshTwo; infer_instance
+instance (s : Topo) (i : String) : Decidable (NameHyp s i) := by unfold NameHyp IsOwnerCls; infer_instance
+
+def ConnectOk (s : Topo) (c : Nat) (svc : Nid) : IfArg → Prop
+  | .bogus => True
+  | .iface iid iname => HandleOk s svc .networkService ∧ HandleOk s iid .connectionPoint ∧ FreshTwo s c ∧ NameHyp s iname ∧
+      NoSpIn s [.iface iid iname]
+instance (s : Topo) (c : Nat) (svc : Nid) (i : IfArg) : Decidable (ConnectOk s c svc i) := by
+  cases i <;> unfold ConnectOk <;> infer_instance
+
+/-- the calls (with the decidable conditions on their arguments in state `s`) for which `inv_op` is proved -/
+def CoveredS (s : Topo) : TopoOp → Prop
+  | .addNode _ _ a => TypeArgOk .networkNode a.ntype
+  | .addComponent _ _ parent _ => HandleOk s parent .networkNode
+  | .addStorage _ _ parent _ _ _ => HandleOk s parent .networkNode
+  | .nsAddInterface _ _ svc _ _ _ itype _ => HandleOk s svc .networkService ∧ TypeArgOk .connectionPoint itype ∧ NotSp itype
+  | .addLink _ _ _ _ ltype ifs _ _ => TypeArgOk .link ltype ∧ NoSpOpt s ifs
+  | .connect _ c svc _ i => ConnectOk s c svc i
+  | .setProps _ _ => True
+  | .unsetProp _ _ => True
+  | .rename _ _ _ => True
+  | _ => False
+
+/-- the alphabet for the downward-closed invariant: every removing call as well (add_component / add_storage are proved for `InvS` only) -/
+def CoveredD (s : Topo) : TopoOp → Prop
+  | .addNode _ _ a => TypeArgOk .networkNode a.ntype
+  | .nsAddInterface _ _ svc _ _ _ itype _ => HandleOk s svc .networkService ∧ TypeArgOk .connectionPoint itype
+  | .addLink _ _ _ _ ltype ifs _ _ => TypeArgOk .link ltype ∧ NoSpOpt s ifs
+  | .connect _ c svc _ i => ConnectOk s c svc i
+  | .setProps _ _ | .unsetProp _ _ | .rename _ _ _ => True
+  | .nsRemoveInterface _ _ _ | .disconnect _ _ | .removeNode _ | .removeFacility _ | .removeSwitch _ | .removeLink _
+  | .removeService _ | .nodeRemoveService _ _ | .removeComponent _ _ => True
+  | .addComponent .. | .addStorage .. | .nodeAddService .. | .addService .. | .addFacility .. | .addSwitch .. => False
+
+instance (s : Topo) (op : TopoOp) : Decidable (CoveredS s op) := by cases op <;> unfold CoveredS <;> infer_instance
+instance (s : Topo) (op : TopoOp) : Decidable (CoveredD s op) := by cases op <;> unfold CoveredD <;> infer_instance
+
+def ValidS : List TopoOp → Topo → Prop
+  | [], _ => True
+  | op :: ops, s => CoveredS s op ∧ ValidS ops (step op s).2
+def ValidD : List TopoOp → Topo → Prop
+  | [], _ => True
+  | op :: ops, s => CoveredD s op ∧ ValidD ops (step op s).2
+
+instance decValidS : (ops : List TopoOp) → (s : Topo) → Decidable (ValidS ops s)
+  | [], _ => isTrue trivial
+  | op :: ops, s => by
+      unfold ValidS
+      have := decValidS ops (step op s).2
+      infer_instance
+instance decValidD : (ops : List TopoOp) → (s : Topo) → Decidable (ValidD ops s)
+  | [], _ => isTrue trivial
+  | op :: ops, s => by
+      unfold ValidD
+      have := decValidD ops (step op s).2
+      infer_instance
+
+theorem state_bind_pure {α β : Type} (m : M Topo α) (g : α → M Topo β) (hg : ∀ a s, (g a s).2 = s) (s : Topo) :
+    ((m >>= g) s).2 = (m s).2 := by
+  rcases cases_run m s with ⟨a, s', h⟩ | ⟨e, s', h⟩
+  · rw [bind_ok h, h]; exact hg a s'
+  · rw [bind_err h, h]
+
+/-- every covered building call keeps the structural invariant, whether it returns or raises -/
+theorem inv_op (s : Topo) (op : TopoOp) (hc : CoveredS s op) (h : InvS s) : InvS (step op s).2 := by
+  cases op <;> simp only [CoveredS] at hc <;> simp only [step] <;> rw [state_bind_pure _ _ (fun _ _ => rfl)]
+  case addNode fl c a => exact invS_addNode fl c a s hc h
+  case addComponent fl c p a => exact invS_addComponent fl c p a s hc h
+  case addStorage fl c p n i pr => exact invS_addStorage fl c p n i pr s hc h
+  case nsAddInterface fl c svc ca n i t p => exact invS_nsAddInterface fl c svc ca n i t p s hc.1 hc.2.1 hc.2.2 h
+  case addLink fl c n i lt ifs t p =>
+    exact invS_addLink fl c n i lt ifs t p s hc.1 (fun l hl => by have := hc.2; rw [hl] at this; exact this) h
+  case connect fl c svc ca i =>
+    cases i with
+    | bogus => exact h
+    | iface iid iname => exact invS_connect fl c svc iid iname ca s hc.1 hc.2.1 hc.2.2.1 hc.2.2.2.1 hc.2.2.2.2 h
+  case setProps i p => exact (preserves_setProps keyStable_invS.map i p).h s h
+  case unsetProp i g => exact (preserves_unsetProp keyStable_invS.map i g).h s h
+  case rename c i n => exact (preserves_rename keyStable_invS c i n).h s h
+
+theorem invD_op (s : Topo) (op : TopoOp) (hc : CoveredD s op) (h : InvD s) : InvD (step op s).2 := by
+  cases op <;> simp only [CoveredD] at hc <;> simp only [step] <;> rw [state_bind_pure _ _ (fun _ _ => rfl)]
+  case addNode fl c a => exact invD_addNode fl c a s hc h
+  case nsAddInterface fl c svc ca n i t p => exact invD_nsAddInterface fl c svc ca n i t p s hc.1 hc.2 h
+  case addLink fl c n i lt ifs t p =>
+    exact invD_addLink fl c n i lt ifs t p s hc.1 (fun l hl => by have := hc.2; rw [hl] at this; exact this) h
+  case connect fl c svc ca i =>
+    cases i with
+    | bogus => exact h
+    | iface iid iname => exact invD_connect fl c svc iid iname ca s hc.1 hc.2.1 hc.2.2.1 hc.2.2.2.1 hc.2.2.2.2 h
+  case setProps i p => exact (preserves_setProps keyStable_invD.map i p).h s h
+  case unsetProp i g => exact (preserves_unsetProp keyStable_invD.map i g).h s h
+  case rename c i n => exact (preserves_rename keyStable_invD c i n).h s h
+  case nsRemoveInterface fl svc n => exact (preserves_nsRemoveInterface dropStable_invD fl svc n).h s h
+  case disconnect ca i => exact (preserves_disconnectInterface dropStable_invD ca i).h s h
+  case removeNode n => exact (preserves_removeNode dropStable_invD n).h s h
+  case removeFacility n => exact (preserves_removeFacility dropStable_invD n).h s h
+  case removeSwitch n => exact (preserves_removeSwitch dropStable_invD n).h s h
+  case removeLink n => exact (preserves_removeLink dropStable_invD n).h s h
+  case removeService n => exact (preserves_removeService dropStable_invD n).h s h
+  case nodeRemoveService p n => exact (preserves_nodeRemoveService dropStable_invD p n).h s h
+  case removeComponent p n => exact (preserves_removeComponent dropStable_invD p n).h s h
+
+/-- PARTIAL (name scopes, uncovered calls and "exactly one" after removals are missing, see the header): the structural
+invariant holds after every history of covered calls -/
+theorem inv_history_partial (ops : List TopoOp) : ∀ s, ValidS ops s → InvS s → InvS (run ops s) := by
+  induction ops with
+  | nil => intro s _ h; exact h
+  | cons op ops ih => intro s hv h; exact ih _ hv.2 (inv_op s op hv.1 h)
+
+theorem invD_history_partial (ops : List TopoOp) : ∀ s, ValidD ops s → InvD s → InvD (run ops s) := by
+  induction ops with
+  | nil => intro s _ h; exact h
+  | cons op ops ih => intro s hv h; exact ih _ hv.2 (invD_op s op hv.1 h)
+
+theorem inv_history_from_empty (ops : List TopoOp) (hv : ValidS ops Topo.empty) : InvS (run ops Topo.empty) :=
+  inv_history_partial ops _ hv inv_empty.struct
+
+theorem invD_history_from_empty (ops : List TopoOp) (hv : ValidD ops Topo.empty) : InvD (run ops Topo.empty) :=
+  invD_history_partial ops _ hv inv_empty.struct.down
+
+/-! ### the full invariant, name scopes included, for the calls that cannot touch a name -/
+
+theorem inv_setProps (nid : Nid) (props : List PropArg) (s : Topo) (h : Inv s) : Inv (setProps nid props s).2 :=
+  (preserves_setProps mapStable_inv nid props).h s h
+theorem inv_unsetProp (nid : Nid) (g : Option String) (s : Topo) (h : Inv s) : Inv (unsetProp nid g s).2 :=
+  (preserves_unsetProp mapStable_inv nid g).h s h
+
+theorem inv_addNode (fl : Flavour) (c : Nat) (a : NodeArgs) (s : Topo) (ht : TypeArgOk .networkNode a.ntype) (h : Inv s) :
+    Inv (addNode fl c a s).2 := inv_addNode_full fl c a s ht h
+
+/-! ## non-vacuity of the guards, and the known findings as concrete witnesses
+
+Every witness below is replayed on the implementation by a deterministic case of the oracle (props/c07.py
+`deterministic_cases`), which prints the corresponding KNOWN-FINDING line on every run. -/
+
+/-- a node with a service of two interfaces, and a top-level service -/
+def w2 : Topo := ⟨[⟨.networkNode, .user "n", "n1", "VM", []⟩, ⟨.networkService, .user "ns", "n1-ns", "OVS", []⟩,
+    ⟨.connectionPoint, .user "f1", "p1", "TrunkPort", []⟩, ⟨.connectionPoint, .user "f2", "p2", "TrunkPort", []⟩,
+    ⟨.networkService, .user "s", "s1", "L2Bridge", []⟩],
+  [⟨⟨.networkNode, .user "n"⟩, ⟨.networkService, .user "ns"⟩, .has⟩,
+   ⟨⟨.networkService, .user "ns"⟩, ⟨.connectionPoint, .user "f1"⟩, .connects⟩,
+   ⟨⟨.networkService, .user "ns"⟩, ⟨.connectionPoint, .user "f2"⟩, .connects⟩]⟩
+
+/-- the guards of `CoveredS` are satisfiable by real calls: a covered history from the empty model ... -/
+example : ValidS [.addNode .experiment 0 ⟨"n1", none, some "RENC", some "VM", []⟩,
+                  .addNode .experiment 1 ⟨"n2", some (.user "x"), some "UKY", some "Server", []⟩,
+                  .rename .networkNode (.gen 0) "n3", .setProps (.user "x") [.ok "Site" "RENC"]] Topo.empty := by decide
+/-- ... and a covered connect / add_interface / add_link on a model with interfaces; the connect succeeds (7 elements) -/
+example : Inv w2 ∧ CoveredS w2 (.connect .experiment 0 (.user "s") [] (.iface (.user "f1") "p1")) ∧
+    CoveredS w2 (.nsAddInterface .experiment 0 (.user "s") [] "i9" none (some "TrunkPort") []) ∧
+    CoveredS w2 (.addLink .experiment 0 "l1" none (some "L2Path") (some [.iface (.user "f1") "p1", .iface (.user "f2") "p2"]) none []) ∧
+    (step (.connect .experiment 0 (.user "s") [] (.iface (.user "f1") "p1")) w2).2.nodes.length = 7 := by decide
+/-- ... and a covered add_component that expands to a component, its service and two interfaces (9 elements) -/
+example : CoveredS w2 (.addComponent .experiment 0 (.user "n") ⟨"nic1", none, some "SmartNIC", some "ConnectX-6", none, none, none, []⟩) ∧
+    (step (.addComponent .experiment 0 (.user "n") ⟨"nic1", none, some "SmartNIC", some "ConnectX-6", none, none, none, []⟩) w2).2.nodes.length = 9 ∧
+    Inv (step (.addComponent .experiment 0 (.user "n") ⟨"nic1", none, some "SmartNIC", some "ConnectX-6", none, none, none, []⟩) w2).2 := by
+  decide
+
+def w0 : Topo := ⟨[⟨.networkNode, .user "a", "n1", "VM", []⟩, ⟨.networkNode, .user "b", "n2", "VM", []⟩], []⟩
+
+/-- known finding `C07:names-unique:NetworkNode:rename`: full statement `Inv s → Inv (rename … s).2` fails -/
+theorem rename_names_counterexample : Inv w0 ∧ ¬ NodeNames (rename .networkNode (.user "b") "n1" w0).2 := by decide
+
+def w1 : Topo := ⟨[⟨.networkService, .user "s", "s1", "L2Bridge", []⟩, ⟨.connectionPoint, .user "i1", "ii", "TrunkPort", []⟩],
+  [⟨⟨.networkService, .user "s"⟩, ⟨.connectionPoint, .user "i1"⟩, .connects⟩]⟩
+
+/-- known finding `C07:names-unique:ConnectionPoint-in-NetworkService:ns_add_interface` (the handle cache is not extended) -/
+theorem nsAddInterface_names_counterexample :
+    Inv w1 ∧ ¬ CpNames (nsAddInterface .experiment 0 (.user "s") [] "ii" none (some "TrunkPort") [] w1).2 := by decide
+
+/-- known finding `C07:serviceport-one-peer:…:ns_add_interface`: the guard `NotSp` of `CoveredS` is needed -/
+theorem nsAddInterface_sp_counterexample :
+    Inv w1 ∧ ¬ SpPeer (nsAddInterface .experiment 0 (.user "s") [] "sp" none (some "ServicePort") [] w1).2 := by decide
+
+def w3 : Topo := (connectInterface .experiment 0 (.user "s") [] (.iface (.user "f1") "p1") w2).2
+
+set_option maxRecDepth 8000 in
+/-- known finding `C07:serviceport-one-peer:…:add_link`: the guard `NoSpIn` of `CoveredS` is needed -/
+theorem addLink_sp_counterexample : Inv w3 ∧ ¬ SpPeer (addLink .experiment 2 "lx" none (some "Patch")
+    (some [.iface (.gen 0) "n1-p1", .iface (.user "f2") "p2"]) none [] w3).2 := by decide
+
+/-- a node with two services that each have an interface called `ii` -/
+def w4 : Topo := ⟨[⟨.networkNode, .user "n", "n1", "VM", []⟩, ⟨.networkService, .user "na", "nsa", "OVS", []⟩,
+    ⟨.networkService, .user "nb", "nsb", "OVS", []⟩,
+    ⟨.connectionPoint, .user "f1", "ii", "TrunkPort", []⟩, ⟨.connectionPoint, .user "f2", "ii", "TrunkPort", []⟩,
+    ⟨.networkService, .user "s", "s1", "L2Bridge", []⟩],
+  [⟨⟨.networkNode, .user "n"⟩, ⟨.networkService, .user "na"⟩, .has⟩, ⟨⟨.networkNode, .user "n"⟩, ⟨.networkService, .user "nb"⟩, .has⟩,
+   ⟨⟨.networkService, .user "na"⟩, ⟨.connectionPoint, .user "f1"⟩, .connects⟩,
+   ⟨⟨.networkService, .user "nb"⟩, ⟨.connectionPoint, .user "f2"⟩, .connects⟩]⟩
+def w5 : Topo := (connectInterface .experiment 0 (.user "s") [] (.iface (.user "f1") "ii") w4).2
+
+set_option maxRecDepth 8000 in
+/-- known findings `C07:names-unique:Link:connect` and `…ConnectionPoint-in-NetworkService:connect`: the derived names collide -/
+theorem connect_names_counterexample : Inv w4 ∧ Inv w5 ∧
+    ¬ LinkNames (connectInterface .experiment 2 (.user "s") [] (.iface (.user "f2") "ii") w5).2 ∧
+    ¬ CpNames (connectInterface .experiment 2 (.user "s") [] (.iface (.user "f2") "ii") w5).2 := by decide
 
 end FimVerif.C07
